@@ -204,7 +204,9 @@ def apiUpdateRanges (m : MapObj) (op : String) (R : List (Nat × Nat)) (val : Op
     (slicePath : Bool) : Except Err MapObj := do
   -- line 592: `len(np.unique(pixels)) < len(pixels)` on the raw (M, 2) array
   let rawOk := !((R.flatMap fun ab => [ab.1, ab.2]).eraseDups.length < R.length)
-  if !slicePath then
+  -- a view always takes the explicit path, where the guard against new pixels is
+  -- (after the `fix:` commit; before it the range routine bypassed the guard)
+  if !slicePath || m.view.isSome then
     if R.isEmpty then
       apiUpdate m op [] (val.map fun v => [v]) true
     else
@@ -231,9 +233,18 @@ def apiUpdateRanges (m : MapObj) (op : String) (R : List (Nat × Nat)) (val : Op
     if R.isEmpty then return m
     if !(valMatchesKind m.kind w) then throw .value
     if op == "replace" && !rawOk then throw .value
+    -- the range routine drops empty rows on entry (after the `fix:` commit: an empty row selects
+    -- nothing, allocates nothing, and `[[npix, npix]]` is harmless)
+    let R := R.filter fun ab => ab.1 != ab.2
     if R.any (fun ab => ab.2 > m.npix || ab.1 > ab.2) then throw .index
     let (pre, f) := cellOp m op
-    let st' := updateRanges m.c m.vc m.st (cellEffect pre f w) R noAppend
+    -- `add` on a non-zero sentinel: unset cells are reset to 0 in a pass of their own over ALL
+    -- rows, before anything is added (after the `fix:` commit; with overlapping rows a running
+    -- sum may pass through the sentinel)
+    let st₁ := match pre with
+      | some g => updateRanges m.c m.vc m.st g R noAppend
+      | none => m.st
+    let st' := updateRanges m.c m.vc st₁ (fun x => f x w) R noAppend
     if op == "add" && !floatCellsFit m.kind st'.sp then throw .inexact
     pure { m with st := st' }
 
